@@ -203,25 +203,9 @@ def filter_scope_rule(ctx, program, rid):
                   key="filter scope per message", node=program.func(uid), rel=uid.split("::")[0])
 
 
-def _with_helpers(program, uid, depth=2):
-    """The nodes of a function and of the helpers of its own class / module that it calls (a helper extracted from it builds part of its result)."""
-    unit = program.unit(uid)
-    seen, todo, nodes = [unit.node], [(unit, 0)], []
-    while todo:
-        u, d = todo.pop(0)
-        for n in body_walk(u.node):
-            nodes.append(n)
-            if d < depth and isinstance(n, ast.Call) and isinstance(n.func, (ast.Name, ast.Attribute)):
-                hu = program.resolve_callable(u, n.func)
-                if hu is not None and isinstance(hu.node, (ast.FunctionDef, ast.AsyncFunctionDef)) and not any(hu.node is x for x in seen):
-                    seen.append(hu.node)
-                    todo.append((hu, d + 1))
-    return nodes
-
-
 def _arg_keys(program, uid):
     keys, updates = set(), []
-    for n in _with_helpers(program, uid):
+    for n in program.walk_with_helpers(uid):
         if isinstance(n, ast.Dict) and any(isinstance(k, ast.Constant) and k.value == "trigger_type" for k in n.keys):
             keys |= {k.value for k in n.keys if isinstance(k, ast.Constant)}
             updates += [norm(v) for k, v in zip(n.keys, n.values) if k is None]  # {**data, ...}: a merge like func_args.update(data)
